@@ -16,12 +16,12 @@ def check(repo, rep, tier):
                        'prolog.g4 and from the generated parser; the visitor\'s operator-to-node mapping is extracted symbolically. '
                        'What is evaluated is the extracted model, never the repository\'s code.')
     rep.assume('the reference semantics (sa/sem.py) is standard Prolog control for , ; -> \\+ ! with cuts in transparent positions')
-    rc.rule_body_rules(cm, rep, 'C06.R', 'ctl', scope)
-    rc.rule_exhaustive(cm, rep, 'C06.X1')
-    n, runs = rc.rule_templates_implement_minilanguage(cm, rep, 'C06.B1', depth=depth, width=2, scope=2,
-                                                       limit=None if tier == 'thorough' else 1500)
+    rep.run(rc.rule_body_rules, cm, rep, 'C06.R', 'ctl', scope)
+    rep.run(rc.rule_exhaustive, cm, rep, 'C06.X1')
+    rep.run(rc.rule_templates_implement_minilanguage, cm, rep, 'C06.B1', depth=depth, width=2, scope=2,
+            limit=None if tier == 'thorough' else 1500)
     ok = not [v for v in rep.violations if v['rule'] == 'C06.B1']
-    rc.rule_protocol_invariants(cm, rep, 'C06.P', semantic_ok=ok)
-    rc.rule_precedence(cm, rep, 'C06.G1')
-    rc.rule_operator_mapping(cm, rep, 'C06.G2')
-    rc.rule_compiler_bounded(cm, rep, 'C06.R2', depth=3, scope=3 if tier == 'thorough' else 2, combs=4)
+    rep.run(rc.rule_protocol_invariants, cm, rep, 'C06.P', semantic_ok=ok)
+    rep.run(rc.rule_precedence, cm, rep, 'C06.G1')
+    rep.run(rc.rule_operator_mapping, cm, rep, 'C06.G2')
+    rep.run(rc.rule_compiler_bounded, cm, rep, 'C06.R2', depth=3, scope=3 if tier == 'thorough' else 2, combs=4)
